@@ -2,6 +2,9 @@ package checks
 
 import (
 	"fmt"
+	"math/big"
+	"strings"
+	"time"
 
 	"verif/harness/core"
 	"verif/harness/gen"
@@ -162,6 +165,39 @@ func runC02(c *core.Ctx) {
 			}
 		}
 	})
+	// one log larger than any plausible internal cap (18 MiB): every day must still be reported
+	{
+		var sb strings.Builder
+		days := 0
+		d := gen.Date{Y: 1990, M: 1, D: 1}
+		for sb.Len() < 18<<20 {
+			sb.WriteString(d.AddDays(days).Format("2006/01/02") + ":\n")
+			for k := 0; k < 40; k++ {
+				fmt.Fprintf(&sb, "  snack/number/%02d/with/a/long/name: %d\n", k, 1+k%3)
+			}
+			sb.WriteString("  kcal: 2\n\n")
+			days++
+		}
+		dir := c.Work + "/large"
+		run.WriteFiles(dir, map[string]string{"food.yaml": "", "log.yaml": sb.String()})
+		args := []string{"--no-color", "-d", "food.yaml", "-l", "log.yaml", "reg", "-s", "kcal"}
+		res := run.Exec(c.HR, args, run.ExecOpts{Dir: dir, Timeout: 120 * time.Second})
+		c.Eval(1)
+		c.Count("large_log_days", days)
+		c.Nontrivial("large-log", fmt.Sprint(days))
+		rows, err := obs.ParseRegSingle(res.Out, "kcal")
+		bad := ""
+		if res.Exit != 0 || err != nil {
+			bad = fmt.Sprintf("exit %d, %v, %s", res.Exit, err, clip(res.Serr, 200))
+		} else if len(rows) != days {
+			bad = fmt.Sprintf("%d of %d days reported", len(rows), days)
+		} else if last := rows[len(rows)-1]; last.Date != d.AddDays(days-1).Format("2006/01/02") || last.Sum.Cmp(big.NewRat(2, 1)) != 0 {
+			bad = fmt.Sprintf("last row is %s %s", last.Date, rs(last.Sum))
+		}
+		if bad != "" {
+			c.Violation("reg -s|large-log", fmt.Sprintf("log of %d MiB with %d days: %s", sb.Len()>>20, days, bad), caseDoc{Args: args, Note: "generated log: one heading per day from 1990/01/01, 40 foods and 'kcal: 2' per day", Observed: map[string]any{"exit": res.Exit, "stderr": clip(res.Serr, 500), "rows": len(rows)}})
+		}
+	}
 	jobs, deaths := pool.Stats()
 	c.Count("l2_jobs", jobs)
 	c.Count("l2_process_deaths", deaths)
